@@ -609,6 +609,135 @@ namespace
     }
 }
 
+namespace
+{
+    // ---- long histories on ONE object: one storage + serializer written to for many messages, one bounded
+    //      reader + deserializer decoding a stream of > 200000 bytes value by value ----
+    template <class F> void with_value(long i, int seed, F f)
+    {
+        static const size_t L[4] = {0, 1, 16, 3000};
+        long k = i * 7 + seed;
+        switch (k % 10)
+        {
+        case 0:
+            f((u8)(i * 31 + 1));
+            break;
+        case 1:
+            f((u16)(i * 257 + 1));
+            break;
+        case 2:
+            f((u32)(i * 65537u + 3));
+            break;
+        case 3:
+            f((u64)((u64)i * 0x0101010101010101ull + 5));
+            break;
+        case 4:
+            f((f64)i / 3.0);
+            break;
+        case 5:
+            f(std::vector<u8>(L[(((uint32_t)i + (uint32_t)seed) * 2654435761u >> 13) % 4], (u8)(i * 3 + 1)));
+            break;
+        case 6:
+            f(std::vector<u16>((size_t)(i % 5), (u16)(i * 3 + 1)));
+            break;
+        case 7:
+        {
+            RPad r;
+            r.f = std::make_tuple((u8)i, (i32)(i * 11 + 2), (u16)(i * 5));
+            f(r);
+            break;
+        }
+        case 8:
+        {
+            DefaultedN d;
+            d.v = std::vector<u16>((size_t)(i % 3), (u16)i);
+            d.x = (i32)i;
+            d.vv = {std::vector<u8>((size_t)(i % 2), (u8)i)};
+            f(d);
+            break;
+        }
+        default:
+        {
+            Plain p;
+            p.a = (i32)(i * 7);
+            p.b = (u8)i;
+            p.c = (i16)(-i);
+            p.d = (f64)i * 0.5;
+            f(p);
+            break;
+        }
+        }
+    }
+    static void long_history_case()
+    {
+        int seed = mc::choose(4);
+        long N = mc::thorough() ? 300000 : 70000;
+        mc::describe("new[" C09_COMPILER "] long history #%d: %ld values through ONE string_storage + serializer, then ONE deserialize_buffer_storage + deserializer", seed, N);
+        mc::nontrivial();
+        std::string stream;
+        {
+            igris::string_storage st;
+            igris::serializer<igris::string_storage> ar(st);
+            mc::crash_context("C09.new.long_history.writer");
+            for (long i = 0; i < N; i++)
+            {
+                with_value(i, seed, [&](const auto &v) {
+                    if (i & 1)
+                        ar.serialize(v);
+                    else
+                        igris::serialize(v, st); // a fresh archive over the same storage
+                    ref_enc(stream, v);
+                });
+                const std::string &got = st.storage();
+                size_t n = got.size() < 96 ? got.size() : 96;
+                if (got.size() != stream.size() || memcmp(got.data() + got.size() - n, stream.data() + stream.size() - n, n) != 0)
+                {
+                    mc::violation("C09.new.long_history.writer", "history #%d value %ld: the storage holds %zu bytes, expected %zu (or its last bytes differ)", seed, i, got.size(),
+                                  stream.size());
+                    return;
+                }
+                if (i % 4096 == 0)
+                    mc::tick();
+            }
+            if (st.storage() != stream)
+                mc::violation("C09.new.long_history.writer", "history #%d: after %ld values the storage differs from the concatenation of the encodings", seed, N);
+        }
+        if (stream.size() < 200000)
+            mc::harness_error("long history too short: stream %zu", stream.size());
+        {
+            Exact src(stream.data(), stream.size());
+            igris::deserialize_buffer_storage st(igris::buffer(src.p, src.n));
+            igris::deserializer<igris::deserialize_buffer_storage> ar(st);
+            mc::crash_context("C09.new.long_history.reader");
+            size_t pos = 0;
+            bool bad = false;
+            for (long i = 0; i < N && !bad; i++)
+                with_value(i, seed, [&](const auto &v) {
+                    typedef std::remove_cv_t<std::remove_reference_t<decltype(v)>> T;
+                    T r{};
+                    if (i % 3 == 0)
+                        r = igris::deserialize<T>(st); // a fresh archive over the same storage
+                    else
+                        ar.deserialize(r);
+                    std::string e;
+                    ref_enc(e, v);
+                    pos += e.size();
+                    if (!eq(r, v) || st.avail() != (int)(stream.size() - pos))
+                    {
+                        mc::violation("C09.new.long_history.reader", "history #%d value %ld (%zu bytes into the stream): %s, %d bytes left, want %zu", seed, i, pos - e.size(),
+                                      eq(r, v) ? "value ok" : "WRONG value", st.avail(), stream.size() - pos);
+                        bad = true;
+                    }
+                    if (i % 4096 == 0)
+                        mc::tick();
+                });
+        }
+        mc::more_cases((uint64_t)N, (uint64_t)N);
+        mc::outcome(mc::fmt("long/%d/%zu", seed, stream.size()));
+        mc::crash_context("C09.new.harness");
+    }
+}
+
 #ifdef EXTRAS
 const char *const c09::framework = "new";
 #endif
@@ -628,6 +757,7 @@ MC_INIT
     mc::add_check("new.storage_reader", storage_reader_case);
     mc::add_check("new.relocated_storages", relocated_case);
     mc::add_check("new.nested_serialize", nested_case);
+    mc::add_check("new.long_history", long_history_case);
     mc::add_check("new.interleaved_archives", interleaved_case);
     goldens().push_back({"i32", [] { golden<i32>("i32 0x01020304", 0x01020304, B("\x04\x03\x02\x01")); }});
     goldens().push_back({"u64", [] { golden<u64>("u64 0x0102030405060708", 0x0102030405060708ull, B("\x08\x07\x06\x05\x04\x03\x02\x01")); }});
